@@ -127,6 +127,14 @@ class Project:
         self._mro_cache: Dict[ClassKey, List[ClassInfo]] = {}
         self._attr_cache = {}
 
+    def raw(self) -> 'Project':
+        """the same tree as written (no normalisation) - for rules about aliasing that constant propagation would hide"""
+        if not self.normalisation:
+            return self
+        if getattr(self, '_raw', None) is None:
+            self._raw = Project(str(self.repo), self.overlay, normalise=False)
+        return self._raw
+
     # ------------------------------------------------------------------ indexing
     def _index_module(self, m: ModuleInfo):
         defined_so_far: Dict[str, ClassKey] = {}
